@@ -74,14 +74,25 @@ Definition hold_rem : Z := (go_hold_rem_ns / ns_per_min)%Z.
 (* unrevokedKeyTag's argument: the same key with the REVOKE bit cleared (plain.Flags &^= DNSKEYFlagRevoke) *)
 Definition unrev (k : key) : key := mk_key (k_mat k) (N.ldiff (k_flags k) go_unrevoke_mask).
 
-(* dnssec.KeyTag (keytag.go) for a key whose decoded material fits one chunk (<= 192 octets: every
-   Ed25519 / ECDSA / RSA-1024 key): RFC 4034 Appendix B.  The head (flags, protocol, algorithm) and the
-   final fold are written from the source; the octet sum is the loop srcgen translates from the function
-   body (go_KeyTag_loop2_run).  The theorems never use it — there the tag is an arbitrary function — it
-   is tied to the code by the CTag cases and shows where tag(revoked) - tag comes from. *)
+(* dnssec.KeyTag (keytag.go), RFC 4034 Appendix B, for every key the chunked read handles itself
+   (well-formed base64, not RSAMD5, not oversized): the encoded key is consumed keyTagChunk (256)
+   characters at a time, i.e. 192 decoded octets per chunk; each chunk is summed by the loop srcgen
+   translates from the function body (go_KeyTag_loop2_run, the octet index restarts at 0 in every chunk —
+   192 is even, so the parity is the parity in the RDATA) into one uint32 accumulator.  The head (flags,
+   protocol, algorithm) and the final fold are written from the source.  Input here: the DECODED octets
+   (the base64 step and the library fall-backs are C14's subject).  The property theorems never use it —
+   there the tag is an arbitrary function; it is tied to the code by the CTag cases. *)
+Definition keytag_chunk_octets : nat := N.to_nat (go_keytag_chunk / 4 * 3).
+Fixpoint chunks (n fuel : nat) (l : list N) : list (list N) :=
+  match fuel with
+  | O => []
+  | S f => match l with [] => [] | _ => firstn n l :: chunks n f (skipn n l) end
+  end.
+Definition chunk_sum (sum : N) (c : list N) : N :=
+  let '(_, (s, _, _)) := go_KeyTag_loop2_run sum c (Z.of_nat (length c)) in s.
 Definition keytag_of (flags proto alg : N) (material : list N) : N :=
   let sum0 := wrap32 (wrap32 (wrap32 (N.shiftl (N.shiftr flags 8) 8 + N.land flags 255) + N.shiftl proto 8) + alg) in
-  let '(_, (sum1, _, _)) := go_KeyTag_loop2_run sum0 material (Z.of_nat (length material)) in
+  let sum1 := fold_left chunk_sum (chunks keytag_chunk_octets (S (length material)) material) sum0 in
   let sum2 := wrap32 (sum1 + N.land (N.shiftr sum1 16) 65535) in
   N.land sum2 65535.
 
